@@ -71,7 +71,7 @@ let () =
           let rest = String.sub t 1 (String.length t - 1) in
           let arg () = n_of_int (int_of_string rest) in
           let apply o =
-            let (s', ok) = ostep true true content isman fuel !st o in
+            let (s', ok) = ostep true true true content isman fuel !st o in
             st := s'; if not ok then fuel_out := true in
           match t.[0] with
           | 'P' -> apply (PPush (arg ()))
@@ -81,6 +81,9 @@ let () =
           | 'G' ->
             let kept = if rest = "" then [] else List.map (fun x -> n_of_int (int_of_string x)) (String.split_on_char '.' rest) in
             apply (PGC kept)
+          | 'F' ->
+            let roots = if rest = "" then [] else List.map (fun x -> n_of_int (int_of_string x)) (String.split_on_char '.' rest) in
+            apply (PForeign roots)
           | 'O' -> apply PReopen
           | 'S' ->
             toks := ("b:" ^ show_ints (List.map int_of_n !st.o_blobs)) :: !toks;
@@ -90,6 +93,18 @@ let () =
           | _ -> failwith "sop") ops;
         if !fuel_out then Printf.printf "%s FUEL\n" id
         else Printf.printf "%s %s\n" id (String.concat " " (List.rev !toks))
+      with e -> Printf.printf "%s MODELERROR %s\n" id (Printexc.to_string e))
+    | [id; "L"; kind; subj; cfg; layers; mans; blobs; _] ->
+      (* content.Successors on a document: kind subject config layers manifests blobs *)
+      (try
+        let lst s = if s = "-" then [] else List.map (fun x -> n_of_int (int_of_string x)) (String.split_on_char ',' s) in
+        let k = match kind with
+          | "dockermanifest" -> KDockerManifest | "imagemanifest" -> KImageManifest
+          | "dockerlist" -> KDockerList | "imageindex" -> KImageIndex
+          | "artifact" -> KArtifact | _ -> KOther in
+        let d = { d_kind = k; d_subject = (if subj = "-" then None else Some (n_of_int (int_of_string subj)));
+                  d_config = n_of_int (int_of_string cfg); d_layers = lst layers; d_manifests = lst mans; d_blobs = lst blobs } in
+        Printf.printf "%s s:%s\n" id (String.concat "," (List.map (fun x -> string_of_int (int_of_n x)) (successors_of d)))
       with e -> Printf.printf "%s MODELERROR %s\n" id (Printexc.to_string e))
     | [] -> ()
     | _ -> Printf.printf "BADLINE %s\n" l)
